@@ -117,7 +117,7 @@ PROPS["C13"] = {
 PROPS["C17"] = {
     "title": "Identifier algebra is exact and foreign-session traffic is never delivered",
     "corr_modules": ["WireC", "FrameC", "E2C"],
-    "suites": [("e1", "ids", ["debug"]), ("e1", "dgram", ["debug"]), ("e2", "foreign", ["debug"]), ("e2", "wdgram", ["debug"])],
+    "suites": [("e1", "ids", ["debug"]), ("e1", "dgram", ["debug"]), ("e1", "sheader", ["debug"]), ("e2", "foreign", ["debug"]), ("e2", "wdgram", ["debug"])],
     "technique": PROOF_TECH,
     "level_text": "theorems for all 2^62 ids: acceptance iff client-initiated bidirectional, conversions mutually inverse and in range, unsafe preconditions never violated, parsed session ids always valid; tie: differential runs over all low-bit classes x boundary magnitudes",
     "level_note": CODEC_NOTE + "; the driver-level session filter (foreign streams stopped, foreign datagrams dropped) is exercised by the wire engine, see DESIGN.md",
@@ -141,7 +141,7 @@ PROPS["C03"] = {
 PROPS["C04"] = {
     "title": "Session termination is reported with the peer's exact code and reason",
     "corr_modules": ["WireC", "StreamTSC", "E2C"],
-    "suites": [("e1", "capsule", ["debug"]), ("e1", "typestate", ["debug"]), ("e2", "session", ["debug"])],
+    "suites": [("e1", "capsule", ["debug"]), ("e1", "typestate", ["debug"]), ("e2", "session", ["debug"]), ("e2", "client", ["debug"])],
     "technique": PROOF_TECH,
     "level_text": "theorems about the session-stream runner for every history of skippable elements followed by a close capsule / clean FIN / reset / FIN inside a frame / malformed capsule: exact code and reason, (0,\"\") for a clean finish, protocol failure otherwise; the wire code answered; tie: differential runs of the capsule decoders and the session typestate",
     "level_note": CODEC_NOTE + "; quinn's transport of CONNECTION_CLOSE is an oracle",
@@ -206,7 +206,7 @@ PROPS["C01"] = {
 PROPS["C05"] = {
     "title": "Control-plane interpretation is independent of segmentation and interleaving",
     "corr_modules": ["E2C", "FrameC"],
-    "suites": [("e2", "control_cut", ["debug"]), ("e1", "frame", ["debug"])],
+    "suites": [("e2", "control_cut", ["debug"]), ("e2", "client", ["debug"]), ("e1", "frame", ["debug"])],
     "technique": PROOF_TECH,
     "level_text": "theorems: without cancellation every segmentation and Pending pattern yields the same outcome (poll machines); cancelling a control-plane read that holds no partial progress is harmless; the pinned worker cancels mid-frame (refuted by a computed witness = the known finding) and that is the only failing class; tie: cut x inject matrix against the running driver, cut-only cases must agree with the uncut prediction",
     "level_note": CODEC_NOTE + WIRE_NOTE + "; which events make a select! branch win is runtime behaviour",
